@@ -5,7 +5,8 @@ Statements are about `Lexer.run b data` (Model/Lexer.lean): the `nexttoken` loop
 `PSBaseParser` over `BytesIO(data)` with `BUFSIZ = b`, all tokens collected until PSEOF, one
 unit of fuel per scanner call.  The byte classes it uses are regenerated from psparser.py.
 -/
-import PdfVerif.Lemmas.Lexer
+import PdfVerif.Lemmas.LexerPos
+import PdfVerif.Lemmas.LexerErr
 
 namespace PdfVerif.Props.C14
 open PdfVerif PdfVerif.Lexer PdfVerif.Gen.LexTables
@@ -26,6 +27,57 @@ theorem C14_total (b : Nat) (hb : 1 ≤ b) (data : Bytes) :
 theorem C14_bufsize_indep (b₁ b₂ : Nat) (h₁ : 1 ≤ b₁) (h₂ : 1 ≤ b₂) (data : Bytes) :
     run b₁ data = run b₂ data := by
   rw [C14_run_eq_spec b₁ h₁, C14_run_eq_spec b₂ h₂]
+
+/-- Token positions never decrease and lie inside the input (stated for the buffer-free sequence;
+    by `C14_run_eq_spec` it is the sequence of every buffer size).  Uses the regenerated NONSPC table:
+    the flushed newline is not a token start. -/
+theorem C14_positions (data : Bytes) :
+    (specLex data).Pairwise (fun a b => a.1 ≤ b.1) ∧ ∀ t ∈ specLex data, t.1 < data.length := by
+  have hnl : isNONSPC 10 = false := by decide +kernel
+  have hf := foldBytes_between data St.init 0 (Nat.le_refl _)
+  have hfl := flush_toks hnl (foldBytes St.init data 0).1 data.length
+  have htp : St.init.tpos = 0 := rfl
+  rw [htp] at hf
+  refine ⟨?_, ?_⟩
+  · unfold specLex
+    refine List.pairwise_append.mpr ⟨hf.2.2.1, ?_, ?_⟩
+    · rw [List.pairwise_iff_forall_sublist]
+      intro a b hab
+      have ha := hfl a (hab.subset (by simp))
+      have hb := hfl b (hab.subset (by simp))
+      omega
+    · intro a ha b hb
+      have := (hf.2.2.2 a ha).2
+      have := hfl b hb
+      omega
+  · cases data with
+    | nil =>
+      have he : specLex [] = [] := by decide +kernel
+      intro t ht; rw [he] at ht; simp at ht
+    | cons c tl =>
+      intro t ht
+      unfold specLex at ht
+      have hmax := hf.2.1
+      simp only [List.length_cons] at hmax ⊢
+      rcases List.mem_append.mp ht with h | h
+      · have := (hf.2.2.2 t h).2; omega
+      · have := hfl t h; omega
+
+/-- The same for the buffered tokenizer at any buffer size. -/
+theorem C14_positions_run (b : Nat) (hb : 1 ≤ b) (data : Bytes) :
+    ∃ ts, run b data = some ts ∧ ts.Pairwise (fun a b => a.1 ≤ b.1) ∧ ∀ t ∈ ts, t.1 < data.length :=
+  ⟨specLex data, C14_run_eq_spec b hb data, C14_positions data⟩
+
+/-- Nothing but end of input is signalled: no exception of a Python primitive reached by the scanners
+    (`int(.., 16)`, `int(.., 8)`, `bytes((v,))`, the HEX_PAIR substitution) escapes, on any byte string.
+    (`int()`/`float()` of a number token raise ValueError inside a `try` of the scanner: no token.) -/
+theorem C14_only_eof (data : Bytes) : ∀ t ∈ specLex data, isErr t.2 = false := by
+  have hf := foldBytes_ok data St.init 0 inv_init
+  exact noErr_append hf.2 (call_ok _ [10] data.length hf.1)
+
+theorem C14_only_eof_run (b : Nat) (hb : 1 ≤ b) (data : Bytes) :
+    ∃ ts, run b data = some ts ∧ ∀ t ∈ ts, isErr t.2 = false :=
+  ⟨specLex data, C14_run_eq_spec b hb data, C14_only_eof data⟩
 
 /-- Non-vacuity: a literal string with a backslash-CR-LF continuation split by the buffer boundary,
     an over-long octal escape and a `#xx` name, at buffer sizes 1, 3 and 4096. -/
